@@ -63,9 +63,6 @@ Qed.
 Definition shape_ok (dims : list N) : Prop :=
   Forall (fun d => 1 <= d) dims /\ dims_product dims <= MAX_DIM_TOTAL_ELEMENTS.
 
-Lemma dim_sizes_pos mi : Forall (fun d => 1 <= d) (dim_sizes mi).
-Proof. unfold dim_sizes. apply Forall_forall. intros d Hd. apply in_map_iff in Hd as (m & <- & _). lia. Qed.
-
 Theorem created_shape_ok : forall name mi a,
   array_create_value name mi = Ok a -> shape_ok (ar_dims a) /\ ar_dims a = dim_sizes mi.
 Proof.
@@ -161,4 +158,26 @@ Proof.
   destruct (Nat.eqb_spec (List.length indices) (List.length (ar_dims a))) as [Hl|Hl]; cbn [negb] in E; [|discriminate].
   destruct (linear_index indices (ar_dims a) 0 1) as [j|] eqn:Ej; [|discriminate]. injection E as ->.
   apply linear_index_bound in Ej; [|exact Hpos|exact Hl|lia]. rewrite Hcells. lia.
+Qed.
+
+(* ---------------- every reachable state ---------------- *)
+
+(* [caps_inv] (Proofs/Caps.v) holds at every turn boundary of every session
+   (C16_inv); it gives every stored array a shape DimArray::new can build *)
+Lemma caps_inv_shape : forall s name a, caps_inv s -> In (name, a) (arrays s) ->
+  shape_ok (ar_dims a) /\ N.of_nat (List.length (ar_cells a)) = dims_product (ar_dims a).
+Proof.
+  intros s name a (_ & _ & _ & _ & _ & Har) Hin.
+  destruct (Har _ _ Hin) as ((_ & Hpos) & Hlen & Hcap & _).
+  split; [|exact Hlen]. split; [exact Hpos|]. unfold dims_product. rewrite <- Hlen. exact Hcap.
+Qed.
+
+Theorem rs_index_safe_in_every_state : forall s name a indices, caps_inv s -> In (name, a) (arrays s) ->
+  rs_dimarray_get_linear_index (ar_dims a) indices <> UPanic /\
+  array_linear_index a indices = rs_index_to_res (rs_dimarray_get_linear_index (ar_dims a) indices) /\
+  forall i, rs_dimarray_get_linear_index (ar_dims a) indices = UOk i -> i < N.of_nat (List.length (ar_cells a)).
+Proof.
+  intros s name a indices Hinv Hin. destruct (caps_inv_shape s name a Hinv Hin) as [Hs Hc].
+  destruct (rs_get_linear_index_is_model a indices Hs) as (H1 & _ & H3).
+  split; [exact H1|]. split; [exact H3|]. intros i Hi. exact (rs_index_in_cells a indices i Hs Hc Hi).
 Qed.
